@@ -13,7 +13,8 @@ props_for() {
     *local_function/emit.rs) echo "C03 C11 C20";;
     *local_function/mod.rs) echo "C03 C05 C10 C11 C15";;
     *local_function/context.rs) echo "C03 C20";;
-    *module/data.rs|*module/elements.rs|*module/memories.rs|*module/globals.rs|*module/tables.rs|*module/imports.rs|*module/exports.rs) echo "C04 C19 C20 C02";;
+    *module/data.rs|*src/const_expr.rs) echo "C04 C19 C20 C02 C05";;
+    *module/elements.rs|*module/memories.rs|*module/globals.rs|*module/tables.rs|*module/imports.rs|*module/exports.rs) echo "C04 C19 C20 C02";;
     *module/mod.rs) echo "C05 C08 C12 C13 C14 C04";;
     *function_builder.rs) echo "C15 C18";;
     *tombstone_arena.rs|*arena_set.rs|*module/types.rs|*src/ty.rs) echo "C17 C04 C19";;
